@@ -1,6 +1,6 @@
 (* C02 property theorems: statements only, each closed by [exact]. *)
 From Boltons Require Import Lib.Prelude Lib.C02_Syntax Spec.C02_Spec Model.C02_Model
-  Proofs.C02_Lists Proofs.C02_Inv Proofs.C02_Heap Proofs.C02_Thms.
+  Proofs.C02_Lists Proofs.C02_Inv Proofs.C02_Heap Proofs.C02_Thms Proofs.C02_Counters.
 Close Scope N_scope.
 Open Scope nat_scope.
 
@@ -126,3 +126,23 @@ Example C02_evicts_head_inhabited :
   ring m = [(2, 20); (1, 10)] /\ length (store m) = c_max ex_cfg /\ d_mem (store m) 3 = false
   /\ ring (fst (step1 ex_cfg m (SetItem 3 30))) = [(1, 10); (3, 30)].
 Proof. vm_compute. repeat split. Qed.
+
+(* counters: hit_count, miss_count, soft_miss_count are exactly the numbers of
+   lookups (c[k], get, setdefault) that found the key, that did not, and that
+   did not and were answered by the caller's default -- "found" judged from
+   outside by `k in c` just before the call (lookup_delta / count_lookups in
+   Proofs/C02_Counters.v); hence soft <= miss.  No other method touches them. *)
+Theorem C02_counters : forall c init ops,
+  1 <= c_max c ->
+  let m0 := fst (init_cache c init) in
+  let m := run1 c m0 ops in
+  (hit m, miss m, soft m) = count_lookups c m0 ops /\ (soft m <= miss m)%N.
+Proof. exact counters_count. Qed.
+Print Assumptions C02_counters.
+
+Example C02_counters_inhabited :
+  let c := mkCfg LRI 2 None in
+  let ops := [SetItem 1 10; GetItem 1; GetItem 2; Get 2 0; SetDefault 3 7; Get 1 0; SetItem 4 1; Get 1 5; Pop 3 None] in
+  count_lookups c (fst (init_cache c [])) ops = (2%N, 4%N, 3%N)
+  /\ (let m := run1 c (fst (init_cache c [])) ops in (hit m, miss m, soft m)) = (2%N, 4%N, 3%N).
+Proof. vm_compute. split; reflexivity. Qed.
